@@ -24,7 +24,7 @@ ASSUMPTIONS = [
     'IPv6 text conversion: the theorems are stated for any inet_pton6/inet_ntop6 pair satisfying ip6_oracle (round trip, <= 39 printable non-space ASCII characters) and C18_ip6_glibc proves ip6_oracle for the glibc 2.36 algorithms written in model/Proxy.v; that libc computes what those Gallina functions compute is checked differentially on every run (every string over small alphabets to length 6-9, 2.5k-30k addresses), not proved',
     'a LOCAL command whose family/protocol byte is not 00 may end as "local" or "invalid" (the code parses the ignored address block before looking at the command); reported, not judged',
     'asserts are live (python is not run with -O)',
-    'concurrency: greenlets switch only inside recv_into (gevent); the concurrent streams park every connection at a harness gate inside recv_into (at every call, or when its current TCP segment is used up) and the harness decides which connection continues',
+    'concurrency: all connections of one class are served by ONE edge object (as an EdgeServer serves its connections); greenlets switch only inside recv_into (gevent); the concurrent streams park every connection at a harness gate inside recv_into (at every call, or when its current TCP segment is used up) and the harness decides which connection continues',
     'the wrapped handler is arbitrary application code: whatever it raises (AssertionError included) is not the parser\'s business and must leave handle() unchanged',
     'mixin(): readers built with ProxyProtocolV1/V2/ProxyProtocol.mixin() on instances of one recording EdgeServer subclass must behave like the statically subclassed readers, whatever was mixed in before in the same process',
 ]
@@ -105,6 +105,9 @@ class PPSocket(object):
 class _Base(object):
     def handle(self, sock, addr):
         self.got = (addr, sock.pos)
+        seen = getattr(self, 'seen', None)
+        if seen is not None:        # one edge object serving several connections
+            seen[sock] = self.got
 
 
 class EdgeV1(ProxyProtocolV1, _Base):
@@ -965,15 +968,23 @@ def run_concurrent(conns, prefix):
     socks = [GateSocket(i, d, segs, sched, order) for i, (v, d, segs, sched) in enumerate(conns)]
     outs = [None] * len(conns)
 
+    # ONE edge object per class serves all its connections, as an EdgeServer does
+    shared = {}
+    for v, _d, _segs, _sched in conns:
+        if v not in shared:
+            shared[v] = EDGES[v]()
+            shared[v].got = None
+            shared[v].seen = {}
+
     def serve(i):
-        e = EDGES[conns[i][0]]()
-        e.got = None
+        e = shared[conns[i][0]]
         try:
             e.handle(socks[i], None)
         except BaseException as ex:   # noqa
             outs[i] = ('exc', type(ex).__name__, socks[i].pos)
             return
-        outs[i] = ('drop', socks[i].pos) if e.got is None else ('call', caddr(e.got[0]), e.got[1])
+        got = e.seen.get(socks[i])
+        outs[i] = ('drop', socks[i].pos) if got is None else ('call', caddr(got[0]), got[1])
 
     gs = [gevent.spawn(serve, i) for i in range(len(conns))]
     picks, waits = [], []
@@ -1090,6 +1101,29 @@ def gen_concurrent(ctx):
                     case = judge_concurrent(ctx, conns, res, solo, 'concurrent-2-all-interleavings')
                     if n_int % (7 if ctx.quick else 3) == 0:
                         jobs.append((case, conns, res))
+    # a malformed header next to a well-formed one on the same edge object, every order of arrival:
+    # in particular the malformed connection finishing last
+    good = [streams[0][1], streams[1][1], streams[7][1]]
+    bad = [b'PROXY TCP4 1.2.3.4 5.6.7.8 1 99999\r\nEHLO\r\n',
+           enc_v2(0x21, 0x13, IP4S[2] + IP4S[3] + struct.pack('!HH', 1, 2)) + b'EHLO\r\n',
+           b'\r\n\r\n\x00\r\nXUIT\n' + b'\x21\x11\x00\x0c' + IP4S[2] + IP4S[3] + struct.pack('!HH', 1, 2),
+           streams[0][1][:30], streams[1][1][:20]]
+    n_bad = 0
+    for g, b_ in itertools.product(good, bad):
+        own = lambda d: 'v1' if d.startswith(b'PROXY') else 'v2'
+        classes = ['auto'] + ([own(g)] if own(g) == own(b_) else [])
+        for cls in classes:
+            for first, second in ((g, b_), (b_, g)):
+                for ca in ((), (8,), (3, 8), (6, 16), (16,)):
+                    for cb in ((), (8,), (3, 8), (16,)):
+                        conns = [(cls, first, cut_lengths(len(first), ca), []), (cls, second, cut_lengths(len(second), cb), [])]
+                        solo = [solo_of(c) for c in conns]
+                        for res in all_interleavings(conns, 400):
+                            n_bad += 1
+                            case = judge_concurrent(ctx, conns, res, solo, 'concurrent-malformed-next-to-well-formed')
+                            if n_bad % 11 == 0:
+                                jobs.append((case, conns, res))
+    ctx.count('concurrent:interleavings-malformed-with-well-formed', n_bad)
     ctx.count('concurrent:interleavings-2-connections', n_int)
     ctx.sample(dict(kind='concurrent', connections=[dict(variant='auto', data=streams[0][1], segments=[6, 2, 32]), dict(variant='auto', data=streams[1][1], segments=[36])],
                     note='all orders in which the segments of the two connections arrive'))
@@ -1102,7 +1136,12 @@ def gen_concurrent(ctx):
             if rng.random() < 0.3:
                 d = (valid_v1(rng) if rng.random() < 0.5 else valid_v2(rng, 20)) + rng.choice(PAYLOADS[:6])
                 name = 'v1' if d.startswith(b'PROXY') else 'v2'
+            if rng.random() < 0.25:
+                d = rng.choice(bad)
+                name = 'v1' if d.startswith(b'PROXY') else 'v2'
             conns.append((rng.choice(['auto', 'auto', name]), d, None, rand_sched(rng, min(len(d), 60))))
+        if rng.random() < 0.5:
+            conns = [('auto', d, segs, sc) for (_v, d, segs, sc) in conns]      # all on one edge object
         prefix = [rng.randrange(k) for _p in range(rng.choice([0, 10, 40, 200]))]
         res = run_concurrent(conns, prefix)
         solo = [run_concurrent([c], [])[0][0] for c in conns]
